@@ -42,7 +42,10 @@ def plan_C15(tier, seed):
         "rule": "case 0 enumerates every cell of (combinator x receiver case {Fallthrough,Res(Ok),Res(Err)} x closure "
                 "return case [x mutate]) for or_parse, or_always_parse, or_give_up, optional, matches, and_then, and_also, "
                 "and_do, map, map_err, err_into, From<Result> and ResultExt::{err_into,and_also,and_do}, plus the closure-taking "
-                "combinators once more with a zero-sized value type (); each cell compares "
+                "combinators once more with a zero-sized value type (); the whole table is instantiated for six shapes of the "
+                "value/error types (4-byte; odd-sized (u32,(u8,u16)); 136-byte and 328-byte arrays, i.e. Parsed larger than 128 "
+                "bytes; String and Box payloads with drop glue) - generic code can differ between instantiations only "
+                "through such type intrinsics; payload integrity is part of the compared rendering; each cell compares "
                 "returned value (identity-tagged), closure invocation count and received argument with a table written from "
                 "the documentation. Cases k>=1 enumerate all token strings of length k-1 over {a,b,c,d,e,z} through a composed "
                 "grammar and compare result and closure-invocation trace with a direct reference. Distinct = distinct cell "
@@ -51,7 +54,7 @@ def plan_C15(tier, seed):
         "jobs": jobs,
         "primary_jobs": ["table-chk"],
         "eval_counters": ["cells", "grammar_strings"],
-        "floors": {"cells": 2 * 92, "distinct_nontrivial": 92},
+        "floors": {"cells": 2 * 6 * 92, "shapes": 2 * 6, "distinct_nontrivial": 6 * 92},
         "assumptions": ["the specification table in harness/src/c15.rs is written from the rustdoc of flussab::Parsed/ResultExt"],
     }
 
@@ -75,7 +78,8 @@ def plan_C16(tier, seed):
         "rule": "enum: every string over {space,tab,CR,LF,'a','c'} of length <= %d x every start offset 0..len+1 x "
                 "{tabs_or_spaces,newline,next_newline} and fixed(p) for p in {empty, every prefix up to 5 bytes of the rest, "
                 "the same with last/first byte mutated, rest+'a', rest+CRLF}, each with a fresh reader under 1-byte reads and "
-                "chunk size 1 (plus once with pre-buffered data and an advanced cursor); checked: returned offset == "
+                "chunk size 1 (plus once with pre-buffered data and an advanced cursor, and once on a reader that has already "
+                "seen the end of input because an earlier request went past it); checked: returned offset == "
                 "reference, position unchanged, bytes delivered by the source == max(delivered before, last index the "
                 "reference must inspect + 1), read calls <= needed. sampled: random strings up to 19000 bytes, random "
                 "offsets/patterns/chunk sizes/schedules (fixed, one-shot, random with Interrupted, two-part split); checked: "
@@ -90,7 +94,7 @@ def plan_C16(tier, seed):
         "primary_jobs": ["enum-chk", "sampled-chk", "words-chk"],
         "eval_counters": ["evals_strict", "evals_loose"],
         "floors": {"evals_strict": q(tier, 20_000_000, 1_000_000_000), "evals_loose": q(tier, 100_000, 5_000_000),
-                   "words": 2 * 6 ** 8,
+                   "words": 2 * 6 ** 8, "evals_on_reader_that_has_seen_the_end": 1_000_000,
                    "distinct_nontrivial": 100_000},
         "assumptions": ["reference semantics of the four helpers are taken from their rustdoc in flussab/src/text.rs"],
     }
@@ -121,7 +125,9 @@ def plan_C13(tier, seed):
                 "and unsigned, fully buffered (fast path) and with < 8 bytes buffered behind stale digits (cold path). "
                 "boundary: per integer type (i8..i128,isize,u8..u128,usize) MIN, MAX, +-1 around them, 10^k+-1, 1..60 digits, "
                 "0..30 leading zeros, '-0', lone '-', random digit-biased bytes; all four scanners; every amount 0..24 of "
-                "buffered bytes (selects fast/cold path; the bytes behind the valid window are stale digits). Oracle: "
+                "buffered bytes (selects fast/cold path; the bytes behind the valid window are stale digits), scans starting "
+                "0..12 bytes into the stream, and four reader states: 1-byte reads / the same with the end of input already "
+                "seen (an earlier request went past it) / everything from one read / one read and end seen. Oracle: "
                 "decimal-string reference (no machine arithmetic): Some(v) iff representable and v exact, offset = end of "
                 "the run, lone '-' not consumed, position unchanged, multi == simple. Non-trivial = at least one byte is "
                 "passed over; distinct by hash of (bytes, offset, type, buffered amount, stale prefix); kernel hashes are "
@@ -131,7 +137,7 @@ def plan_C13(tier, seed):
         "primary_jobs": ["kernel-rel", "lanes-chk", "boundary-chk"],
         "eval_counters": ["kernel_evals", "evals"],
         "floors": {"kernel_evals": q(tier, 10_000_000, 1_000_000_000), "evals": q(tier, 1_000_000, 50_000_000),
-                   "distinct_nontrivial": 100_000},
+                   "evals_on_reader_that_has_seen_the_end": 100_000, "distinct_nontrivial": 100_000},
         "assumptions": ["signed scanners are also exercised with unsigned target types (property quantifies over all twelve types)"],
     }
 
@@ -151,7 +157,8 @@ def plan_C02(tier, seed):
         "rule": "random operation histories (50..600 ops drawn from request(n), request_byte, request_byte_at_offset(k), "
                 "request_more, advance(n), advance_with_buf(n), unsafe advance_unchecked(n <= buf_len, its contract), set_mark, set_mark_to_position(p incl. near usize::MAX), "
                 "set_chunk_size(1..65536), check_io_error) on a bare DeferredReader built via from_read / from_boxed_dyn_read / "
-                "from_buf_reader(empty and partly consumed BufReader), over position-identifying zero-free streams of 0..1 MiB "
+                "from_buf_reader(empty and partly consumed BufReader with capacities 2..200 and 4096..70000, the latter "
+                "holding more than one default chunk on long one-shot streams), over position-identifying zero-free streams of 0..1 MiB "
                 "delivered under one-shot, fixed-k, two-part, random and random+Interrupted schedules ending in EOF, early EOF "
                 "or a terminal error at a random offset. After EVERY operation: buf()==stream[cursor..delivered], buf_len, "
                 "buf_ptr, position()==cursor, mark()==absolute offset it was set to, is_complete/is_at_end/io_error exactly "
@@ -165,6 +172,7 @@ def plan_C02(tier, seed):
         "floors": {"ops": q(tier, 10_000_000, 400_000_000), "refills": 1_000_000,
                    "mark_checks_far_after_refill": q(tier, 100_000, 1_000_000),
                    "variant:from_buf_reader(partly consumed)": 1000, "ended_err": 1000,
+                   "bufreader_held_more_than_one_chunk": q(tier, 1000, 20_000),
                    "interrupted_retries": 10_000, "distinct_nontrivial": q(tier, 3_000, 100_000)},
         "assumptions": ["position() wrap-around at 2^64 bytes cannot be driven; only set_mark_to_position exercises wrapping mark arithmetic"],
     }
@@ -187,11 +195,12 @@ def plan_C11(tier, seed):
                 "values, buf_write_ptr(n)+advance_unchecked(m<=n), flush, flush_defer_err, check_io_error, drop; plus boundary "
                 "pairs: fill the buffer so that exactly s in 0..45 bytes are spare, then write a maximal-length integer of a "
                 "random type / a slice of s-1..s+1 bytes / buf_write_ptr(s-1..s+1)) on a real "
-                "DeferredWriter. Each history runs once over a non-failing sink (accept-all / short writes / short+Interrupted) "
+                "DeferredWriter (injected sink errors draw their ErrorKind from 19 non-Interrupted kinds). Each history runs once over a non-failing sink (accept-all / short writes / short+Interrupted) "
                 "and then once per sink write call j that occurred (all j up to 24, sampled beyond) with the sink failing (or "
                 "returning Ok(0)) at call j, sometimes with a second failure later. Judged after every operation from the "
                 "merged client/sink log: non-failing - sink contents are always a prefix of the written stream and equal to "
-                "it after every flush and after drop, flush returns Ok; failing - write calls succeed, no sink call between a "
+                "it after every flush and after drop - one run in three drops the writer by unwinding from a panic of the "
+                "client code (sink healthy and outliving the unwind) instead of leaving its scope -, flush returns Ok; failing - write calls succeed, no sink call between a "
                 "failure and its report, the report comes from the next flush/check_io_error exactly once, later data "
                 "arrives again, every accepted piece continues an in-order duplicate-free selection of the written stream "
                 "(earliest-match per piece); buf_write_ptr(n) is non-null iff n more bytes fit. A run is non-trivial if the "
@@ -201,7 +210,7 @@ def plan_C11(tier, seed):
         "primary_jobs": ["hist-chk"],
         "eval_counters": ["runs"],
         "floors": {"runs": q(tier, 20_000, 800_000), "sink_failures_injected": q(tier, 10_000, 400_000),
-                   "ints_via_cold_path": 1000, "boundary_fills": 10_000, "buf_write_ptr_nonnull": 10_000, "int_type:i128": 1000, "int_type:u8": 1000,
+                   "ints_via_cold_path": 1000, "boundary_fills": 10_000, "writers_dropped_by_unwinding_from_a_client_panic": 2000, "buf_write_ptr_nonnull": 10_000, "int_type:i128": 1000, "int_type:u8": 1000,
                    "distinct_nontrivial": q(tier, 10_000, 300_000)},
         "assumptions": ["the writer's capacity is learnt through buf_write_ptr on a fresh writer, not assumed"],
     }
@@ -276,6 +285,8 @@ def plan_C01(tier, seed):
     fl = dict(PARSER_FLOORS)
     fl.update({"parser:log": 100, "pairs": q(tier, 3_000_000, 150_000_000), "nontrivial_pairs": q(tier, 1_000_000, 50_000_000),
                "ref_accepted": 10_000, "ref_syntax_error": 10_000, "interrupted_reads": 100_000,
+               "ctor:new": 100_000, "ctor:from_read": 10_000, "ctor:from_boxed_dyn_read": 10_000, "ctor:from_buf_reader": 10_000,
+               "ctor:new_on_advanced_reader": 10_000, "aiger_runs_skipping_sections": 5_000,
                "distinct_nontrivial": q(tier, 1_000_000, 10_000_000)})
     return {
         "level": "exploration",
@@ -285,7 +296,9 @@ def plan_C01(tier, seed):
                 "size is compared with the trace under 1-byte reads with chunk size 1, five random (schedule, chunk size or "
                 "constructor) combinations - schedules fixed-k, two-part split, random sizes with and without Interrupted; "
                 "chunk sizes 1,2,3,7,8,9,16,17,64,1024,16384; constructors new/from_read/from_boxed_dyn_read/from_buf_reader "
-                "with a prefilled BufReader - and, for a third of the inputs up to 256 bytes, two-part splits at EVERY offset. "
+                "with a prefilled BufReader (capacities 1..100 and 4096..70000, i.e. also holding more than one default "
+                "chunk), and Parser::new on a LineReader built from a reader that was already advanced over a 1..60 byte "
+                "preamble ('line 1 starts at the current position') - and, for a third of the inputs up to 256 bytes, two-part splits at EVERY offset. "
                 "Compared: every returned item (canonical rendering) and End | Syntax(line,column) | Io; message text is "
                 "counted but not judged. A pair (input, schedule) is non-trivial if the schedule made >= 2 successful reads, a "
                 "read boundary fell strictly inside a token and the run returned an item or a located error; distinct by hash "
@@ -312,7 +325,10 @@ def plan_C04(tier, seed):
                 "comment, in the AIGER comment section, in a BTOR2 comment or symbol - plus mutated, arbitrary, hostile and "
                 "repository-test inputs; all seven parsers, AIGER through both APIs) EVERY fault offset k in 0..=len is run "
                 "twice: the source delivers the first k bytes (1-byte reads with chunk 1; and one-shot / random+Interrupted / "
-                "fixed-k with another chunk size) and then fails with a non-Interrupted error forever. Oracle: final result "
+                "fixed-k with another chunk size or - half of the inputs - through another constructor: from_read, "
+                "from_boxed_dyn_read, from_buf_reader with a prefilled BufReader, new on an advanced reader) and then fails "
+                "forever with an error whose ErrorKind is drawn per run from 19 non-Interrupted kinds (Other, BrokenPipe, "
+                "UnexpectedEof, WouldBlock, TimedOut, ConnectionReset, ..., AddrNotAvailable). Oracle: final result "
                 "never End; it is Io, or the fault-free run's Syntax(line,col) provided that run (1-byte reads, chunk 1, whose "
                 "read-call count is exactly how far the parser looked) looked at <= k bytes; every item handed out equals the "
                 "fault-free item at that index. A fault run is non-trivial if 0 < k < len and the source's error was actually "
@@ -340,7 +356,7 @@ def plan_C05(tier, seed):
         "rule": "one worker process parses each input (grammar-generated incl. extreme numbers / mutated / arbitrary / hostile "
                 "catalogue with 200-digit numbers, invalid UTF-8, truncated files, over-long varints and headers declaring "
                 "counts up to 2^64-1 / repository test literals; all parsers, literal types and configs; one-shot, 1-byte and "
-                "random schedules) to its final result inside catch_unwind, in the chk build (overflow checks + debug "
+                "random schedules; all constructors) to its final result inside catch_unwind, in the chk build (overflow checks + debug "
                 "assertions) and in the rel build. Violations: panic; process abort / signal / stack overflow (attributed via "
                 "the case journal); more than 20 CPU-seconds on one input (ITIMER_VIRTUAL); more items than input bytes + 1; "
                 "peak live heap above 64*delivered + 2 MiB (counting allocator; any single request above 1 GiB is refused). "
@@ -365,18 +381,19 @@ def plan_C07(tier, seed):
               "blank_line_between_clauses", "blank_line_inside_clause", "comment_before_header", "comment_between_clauses",
               "comment_inside_clause", "clause_split_over_lines", "crlf", "no_final_newline", "leading_zeros",
               "minus_zero_terminator", "comment_with_cr_or_digits", "split_after_weight_or_group", "empty_comment",
-              "blank_only_line_with_spaces", "final_blanks_no_newline"]:
+              "blank_only_line_with_spaces", "final_blanks_no_newline", "comment_with_non_ascii_bytes"]:
         fl["feature:dimacs:" + f] = 1000
     for f in ["comment_lines", "unknown_lines", "values_split_over_lines", "empty_value_line", "status_before_values",
               "status_between_values", "status_after_values", "crlf", "no_final_newline", "multi_blank_between_values",
-              "leading_zeros", "minus_zero_terminator"]:
+              "leading_zeros", "minus_zero_terminator", "lines_with_non_ascii_bytes"]:
         fl["feature:log:" + f] = 300
     return {
         "level": "exploration",
         "rule": "an abstract value (optional header + clauses with extreme literals / weights / groups, or solver status + "
                 "assignment) is rendered by a layout grammar that chooses independently, at every place the parsers document or "
                 "test as free: 1..4 spaces/tabs between tokens, trailing and leading blanks, blank lines and comment lines "
-                "(before the header, between clauses, inside a split clause, after weight/group), clauses spread over lines, LF "
+                "(before the header, between clauses, inside a split clause, after weight/group; comment text: fixed samples or "
+                "0..360 arbitrary bytes other than LF with weight on bytes >= 0x80), clauses spread over lines, LF "
                 "or CRLF per line, missing final newline, 0..30 leading zeros, '-0' terminator; solver log: value lines split "
                 "anywhere, empty value lines, comment lines and (with ignore_unknown_lines) arbitrary other lines anywhere, "
                 "status before/between/after the value lines. Each rendering is parsed one-shot and under a random small-chunk "
@@ -400,13 +417,17 @@ def plan_C09(tier, seed):
     fl = dict(PARSER_FLOORS)
     fl.update({"oracle1_checks": q(tier, 2_000_000, 100_000_000), "oracle2_checks": q(tier, 500_000, 20_000_000),
                "docs_with_line_longer_than_chunk": 10_000, "refills": 1_000_000,
+               "ctor:new": 50_000, "ctor:from_read": 20_000, "ctor:from_boxed_dyn_read": 20_000,
+               "ctor:from_buf_reader_holding_first_line": 50_000, "ctor:new_on_advanced_reader": 20_000,
                "distinct_nontrivial": q(tier, 150_000, 3_000_000)})
     return {
         "level": "exploration",
         "rule": "documents of every streaming parser (cnf, wcnf, gcnf, aag and aig section readers, btor2; mostly well-formed "
                 "generated documents with comments and blank lines in all positions, CRLF, lines longer than the chunk size; "
                 "some mutated/arbitrary ones) are delivered by a source that returns at most one line (one binary and-gate) "
-                "per read(), with chunk sizes 16/64/16384; the source's delivered-byte counter is sampled at the moment each "
+                "per read(), with chunk sizes 16/64/16384 and through every constructor (new, from_read, from_boxed_dyn_read, "
+                "from_buf_reader with a BufReader that already holds the first line, new on a reader advanced over a "
+                "preamble); the source's delivered-byte counter is sampled at the moment each "
                 "item (header, clause, section entry, symbol, BTOR2 line) is returned. Oracle 1: delivered <= end offset of the "
                 "line completing the item (from the generator's token map). Oracle 2 (no token map): the data before the "
                 "previous line end followed by end of input must not already yield the identical item. Plus the reader-level "
@@ -466,13 +487,15 @@ def plan_C08(tier, seed):
     return {
         "level": "exploration",
         "rule": "range: every rejected input of the shared corpus (generated / mutated / arbitrary / hostile / repository "
-                "literals; all parsers) under one-shot, 1-byte/chunk-1 and a random small-chunk schedule: 1 <= line <= lines+1 "
+                "literals; all parsers) under one-shot, 1-byte/chunk-1, a random small-chunk schedule and a random schedule "
+                "through a random constructor (from_read, from_boxed_dyn_read, from_buf_reader prefilled, and new on a reader "
+                "that was advanced over a 1..60 byte preamble before the LineReader was built - line 1 starts there): 1 <= line <= lines+1 "
                 "and 1 <= column <= length of that line + 1 (binary AIGER: the and-gate section, as decoded by the independent "
                 "reference reader, belongs to the line it starts on). exact: a well-formed generated document with a token "
                 "map is corrupted at exactly one token from the catalogue {garbage token in place of a number; number one above "
                 "its declared or hard limit; number beyond any machine integer; leading zero (AIGER/BTOR2); odd or zero "
                 "defining literal; separator replaced by tab or doubled; unknown BTOR2 keyword; invalid UTF-8 byte inside an "
-                "AIGER symbol name; binary delta larger than its reference} and parsed under the same three schedules, with "
+                "AIGER symbol name; binary delta larger than its reference} and parsed under the same four schedules, with "
                 "documents long enough that the error lies beyond 2*chunk (location bookkeeping across realigns): the reported "
                 "line must be the token's line and the column must lie on the replacement token. Non-trivial = located error "
                 "beyond line 1; distinct by hash of (bytes, parser config[, location]).",
@@ -495,6 +518,9 @@ def plan_C03(tier, seed):
                "choice:gate_inputs_given_smaller_first": 1000, "choice:comment": 1000,
                "choice:btor_symbol": 1000, "choice:btor_node_comment": 1000, "choice:btor_comment_line": 1000,
                "aiger_section_skipping_roundtrips": 50_000, "btor_documents_also_through_display": 20_000,
+               "choice:clause_with_more_than_4096_literals": 200, "choice:btor_justice_with_more_than_4096_nodes": 30,
+               "choice:btor_constant_with_more_than_4096_digits": 30, "choice:btor_symbol_longer_than_chunk": 30,
+               "choice:btor_comment_longer_than_chunk": 30,
                "distinct_nontrivial": q(tier, 400_000, 10_000_000)})
     for k in range(1, 11):
         fl["choice:varint_len:%d" % k] = 50
@@ -502,6 +528,9 @@ def plan_C03(tier, seed):
         fl["choice:header_fields_written:%d" % k] = 100
     for k in "ilobcjf":
         fl["choice:symbol_kind:" + k] = 1000
+    for k in ["inputs", "latches", "gates", "outputs", "bad", "constraints", "justice_properties", "one_justice_property",
+              "fairness", "symbols"]:
+        fl["choice:aiger_long_section:" + k] = 50
     for t in ["i8", "i16", "i32", "i64", "isize"]:
         fl["choice:extreme_literal:" + t] = 1000
     btor = ["sort_bitvec", "sort_array", "const", "constd", "consth", "one", "ones", "zero", "input", "state", "uext", "sext",
@@ -517,7 +546,10 @@ def plan_C03(tier, seed):
                 "CNF/WCNF/GCNF headers and clauses over all five literal types with extreme literals, weights and groups over "
                 "all of u64, empty clauses, with/without header; AIGER Aig (ascii write_aig) and OrderedAig (ascii and binary "
                 "write_ordered_aig) with every count 0/1/2/few/many independently (B,C,J,F larger than M-I-L and than L), all "
-                "latch reset forms, symbols of every kind at index 0/count-1/random, arbitrary UTF-8 names and comments, "
+                "latch reset forms, one section in turn (inputs, latches, gates, outputs, bad, constraints, justice properties, "
+                "one justice property, fairness, symbols) with 4095..12000 entries in large documents, DIMACS clauses with "
+                "4095..12000 literals, BTOR2 justice lines with that many nodes, constants with > 16000 digits, symbols and "
+                "comments longer than 16 KiB, symbols of every kind at index 0/count-1/random, arbitrary UTF-8 names and comments, "
                 "trailing-zero header fields, delta codes of every 7-bit length 1..10 (huge input counts), gate inputs given "
                 "in either order; BTOR2 lines of every operator / sort / output kind with ids up to u64::MAX, constants built "
                 "through the validating TryFrom constructors from candidate strings that also contain non-digits or are empty; "
@@ -547,7 +579,10 @@ def plan_C10(tier, seed):
         "exhaustive": True,
         "rule": "the complete grid {cnf, wcnf, gcnf, btor2, aag section readers, aig section readers - with each of the nine AIGER "
                 "sections (inputs, latches, outputs, bad, constraints, justice sizes+literals, fairness, gates, symbols) in turn "
-                "being the long one; BTOR2 with three line mixes: mixed, symbol+comment on every line, comment lines between "
+                "being the long one; DIMACS with four stream shapes: clauses only / declared clause count, all clauses, then "
+                "comment and blank lines for the rest of the stream / comment and blank lines for half of the stream in front "
+                "of the header / clauses split over lines around comments plus blocks of 3000 comment and blank lines every "
+                "1000 clauses; BTOR2 with three line mixes: mixed, symbol+comment on every line, comment lines between "
                 "symbol-only nodes} x chunk size "
                 "{64,4096,16384,65536} x read size {1,7,chunk,random} x item profile {all small; one 1 MiB comment line early, "
                 "then small (text formats)} = 192 configurations; each streams N = %d MiB (rel build; chk build with less) "
@@ -562,6 +597,9 @@ def plan_C10(tier, seed):
         "floors": dict({"streams": 2 * 192, "streams_100x_bound": 150, "items": q(tier, 500_000_000, 4_000_000_000),
                         "distinct_nontrivial": 150},
                        **{"btor_profile:%d" % k: 16 for k in range(3)},
+                       **{"dimacs_profile:" + k: 40 for k in ["clauses_only", "declared_count_then_comment_tail",
+                                                               "comment_prelude_before_header",
+                                                               "split_clauses_and_comment_blocks"]},
                        **{"aiger_long_section:" + k: 4 for k in ["inputs", "latches", "outputs", "bad", "constraints",
                                                                   "justice", "fairness", "gates", "symbols"]}),
         "assumptions": ["N is bounded (64 MiB quick, 512 MiB / 1 GiB thorough); the claim for larger N rests on the bound not depending on N"],
